@@ -1249,7 +1249,10 @@ class Irc(IrcCommandDispatcher, log.Firewalled):
         else:
             msg_tags_str = ''
             msg_rest_str = msg_str
-        if len(msg_rest_str) > MAX_LINE_SIZE:
+        # The limit is on the bytes sent, not on the characters (the driver
+        # encodes with 'replace', hence the same here).
+        msg_rest_bytes = msg_rest_str.encode('utf-8', 'replace')
+        if len(msg_rest_bytes) > MAX_LINE_SIZE:
             # Yes, this violates the contract, but at this point it doesn't
             # matter.  That's why we gotta go munging in private attributes
             #
@@ -1258,7 +1261,10 @@ class Irc(IrcCommandDispatcher, log.Firewalled):
             # this issue, there's no fundamental reason to make it a
             # warning.
             log.debug('Truncating %r, message is too long.', msg)
-            msg._str = msg_tags_str + msg_rest_str[:MAX_LINE_SIZE-2] + '\r\n'
+            # 'ignore' drops the character the cut falls into, if any.
+            msg._str = msg_tags_str + \
+                msg_rest_bytes[:MAX_LINE_SIZE-2].decode('utf-8', 'ignore') + \
+                '\r\n'
             msg._len = len(str(msg))
         # TODO: truncate tags
 
